@@ -235,7 +235,7 @@ class DelimSource(Source[Iterable[str]]):
                 if pending:
                     lines[0] = pending + lines[0]
                     pending = None
-                if text[-1] not in '\r\n':
+                if len((text[-1]+'.').splitlines()) == 1: #the text does not end with one of the line boundaries
                     pending = lines.pop()
                 yield from lines
         else:
